@@ -52,6 +52,11 @@ impl BindScope for BindNode {
         let mut all = self.all_nodes_created_on_rhs.borrow_mut();
         all.push(node);
     }
+    #[cfg(cormacrelf_incremental_rs_verif)]
+    fn verif_height(&self) -> Option<i32> {
+        let lhs_change = self.lhs_change.borrow().upgrade()?;
+        Some(lhs_change.height())
+    }
 }
 
 pub(crate) trait LhsChangeFn:
